@@ -5,6 +5,7 @@ SrvC05 == {"msg", "pres", "iqget", "iqset", "iqres", "iqerr", "r", "feat"}
 SrvC09 == {"msg", "pres", "iqget", "r", "feat"}
 SrvC10 == {"msg"}
 SrvFull == {"msg", "pres", "iqget", "iqres", "r", "feat"}
+NoneSet == {}
 SendOne == {<<"send", "msg">>}
 SendA == {<<"send", "a">>}
 SendQuick == {<<"send", "msg">>, <<"raw", "msg">>, <<"send", "r">>, <<"send", "a">>}
